@@ -46,6 +46,22 @@ def stream_run(it, entry, inp, p):
     return [bits8(x) for x in it.read_buffer(c, n)]
 
 
+# ---- Poly1305: SSE2 unit vs donna unit, one-shot, key r concrete (a power of two), pad and message symbolic --------
+def p1305_inputs(p):
+    return {"pad": sym_bytes("s", 16), "msg": sym_bytes("m", p["len"])}
+
+
+def p1305_run(it, entry, inp, p):
+    n = p["len"]
+    m = it.new_buffer(n, "m", False, [0] * n)
+    k = it.new_buffer(32, "k", False, list(int(p["r"]).to_bytes(16, "little")) + [0] * 16)
+    out = it.new_buffer(16, "out", False, [0] * 16)
+    fill(it, m, inp["msg"])
+    fill(it, Ptr_off(k, 16), inp["pad"])
+    it.call(_name(it, entry), [out, m, n, k])
+    return [bits8(x) for x in it.read_buffer(out, 16)]
+
+
 # ---- BLAKE2b compression: entry(S, block) ---------------------------------
 def b2_inputs(p):
     return {"h": sym_bytes("h", 64), "t": sym_bytes("t", 16), "f": sym_bytes("f", 16), "block": sym_bytes("b", 128)}
@@ -337,6 +353,11 @@ TARGETS = [
          a=dict(units=[CH + "ref/chacha20_ref.c"] + U, entry="stream_ref_xor_ic"),
          b=dict(units=[CH + "dolbeau/chacha20_dolbeau-avx2.c"] + U, entry="stream_ref_xor_ic"),
          quick=[{"len": n} for n in (1, 64, 65, 128)] + _IC4Q + _IC8Q, thorough=[{"len": n} for n in (255, 256, 257)] + _IC4 + _IC8),
+    dict(name="poly1305-sse2-donna", inputs=p1305_inputs, run=p1305_run, sums=True,
+         a=dict(units=["crypto_onetimeauth/poly1305/donna/poly1305_donna.c", "crypto_verify/verify.c"] + U, entry="crypto_onetimeauth_poly1305_donna"),
+         b=dict(units=["crypto_onetimeauth/poly1305/sse2/poly1305_sse2.c", "crypto_verify/verify.c"] + U, entry="crypto_onetimeauth_poly1305_sse2", undefs=["HAVE_AMD64_ASM"]),
+         quick=[{"r": r, "len": n} for r, n in ((2, 16), (1, 16), (4, 16), (2, 1), (2, 15), (4, 32), (1, 32), (1, 40), (1, 33), (2, 17), (8, 16), (2, 32), (2, 0))],
+         thorough=[{"r": r, "len": n} for r, n in ((2, 33), (1, 47), (8, 32), (4, 31))]),
     dict(name="salsa20-sse2", inputs=stream_inputs, run=stream_run,
          a=dict(units=[SA + "ref/salsa20_ref.c", "crypto_core/salsa/ref/core_salsa_ref.c"] + U, entry="stream_ref_xor_ic", undefs=["HAVE_AMD64_ASM"]),
          b=dict(units=[SA + "xmm6int/salsa20_xmm6int-sse2.c"] + U, entry="stream_sse2_xor_ic", undefs=["HAVE_AMD64_ASM"]),
